@@ -148,7 +148,16 @@ def c_sup10(unit):
     return {"fired": bool(bad), "good_silent": not good and bool(seen), "detail": [x.msg[:140] for x in bad[:1]]}
 
 
+def c_pan18(unit):
+    import engine_r5
+    r = engine_r5.pan18(_ctx(unit), unit=unit, prefix="poscontrol::Bw18::", floor=2)
+    bad = [x for x in r.reports if "pan18_bad" in x.key]
+    good = [x for x in r.reports if "pan18_good" in x.key]
+    seen = [i for i in r.instances if "pan18_good" in i["what"]]
+    return {"fired": bool(bad), "good_silent": not good and bool(seen), "detail": [x.msg[:140] for x in bad[:1]]}
+
+
 CONTROLS = {
     "PUR-1": c_pur1, "PUR-2": c_pur2, "PUR-3": c_pur3, "PAN-1": c_pan1, "CLI-1": c_cli1, "ERR-1": c_err1,
-    "FLW-guard": c_flw_guard, "SYN-1": c_syn1, "PAN-3": c_pan3, "BIT": c_bit, "PAN-7": c_pan7, "SYN-2": c_syn2, "SYN-6": c_syn6, "SUP-10": c_sup10,
+    "FLW-guard": c_flw_guard, "SYN-1": c_syn1, "PAN-3": c_pan3, "BIT": c_bit, "PAN-7": c_pan7, "SYN-2": c_syn2, "SYN-6": c_syn6, "SUP-10": c_sup10, "PAN-18": c_pan18,
 }
